@@ -80,6 +80,13 @@ func ruleSCarry(c *Ctx) {
 							}
 						}
 					}
+					if x.Op == token.SHR { // c >>= 8 is c /= 256 for the non-negative accumulator
+						if k, isK := x.Y.(*ssa.Const); isK {
+							if v, ok := constValInt(k.Value); ok && v.Sign() > 0 && v.Int64() < 32 {
+								id.radix, id.quo = new(big.Int).Lsh(big.NewInt(1), uint(v.Int64())), x
+							}
+						}
+					}
 				case *ssa.Store:
 					if onRecv(x.Addr) {
 						id.stores++
